@@ -143,6 +143,49 @@ Theorem C09_net_one_entry_per_line : forall sp l,
 Proof. exact net_one_entry_per_line. Qed.
 Print Assumptions C09_net_one_entry_per_line.
 
+(* unit conversion.  The sector counts of /proc/diskstats and /sys/block/*/stat are in 512-byte units
+   whatever the device's own sector size (queue/hw_sector_size, logical_block_size ... of 4Kn drives).
+   The model's only view of sysfs is the oracle sb = "is <name> an entry of /sys/block"; per device
+   the answer does not depend on it at all -- for every two sysfs contents: *)
+Theorem C09_disk_perdisk_ignores_sysfs : forall sb1 sb2 l,
+  wf_disks l = true ->
+  disk_io_counters true sb1 (ProcDiskstats (k_diskstats l))
+  = disk_io_counters true sb2 (ProcDiskstats (k_diskstats l)).
+Proof. exact disk_perdisk_ignores_sysfs. Qed.
+Print Assumptions C09_disk_perdisk_ignores_sysfs.
+
+(* ... the per-device result is a function of the device's own diskstats line alone, and its byte
+   counts are 512 x the sector counts of that line (disks and partitions, every layout but 2.4) *)
+Theorem C09_disk_entry_from_line_alone : forall sb l d,
+  wf_disks l = true -> In d l ->
+  exists r, disk_io_counters true sb (ProcDiskstats (k_diskstats l)) = Val (RDict r)
+            /\ In (dec (d_name d), nt_disk (model_view d)) r
+            /\ match d_lay d with
+               | LFull s _ => read_bytes (model_view d) = 512 * dec_val (rd_sectors s)
+                              /\ write_bytes (model_view d) = 512 * dec_val (wr_sectors s)
+               | LPart _ rsect _ wsect => read_bytes (model_view d) = 512 * dec_val rsect
+                                          /\ write_bytes (model_view d) = 512 * dec_val wsect
+               | L24 _ _ => True
+               end.
+Proof. exact disk_entry_from_line_alone. Qed.
+Print Assumptions C09_disk_entry_from_line_alone.
+
+(* the system-wide form depends on sysfs only through which names are /sys/block entries *)
+Theorem C09_disk_total_listing_only : forall sb1 sb2 l,
+  wf_disks l = true -> (forall d, In d l -> listed sb1 d = listed sb2 d) ->
+  disk_io_counters false sb1 (ProcDiskstats (k_diskstats l))
+  = disk_io_counters false sb2 (ProcDiskstats (k_diskstats l)).
+Proof. exact disk_total_listing_only. Qed.
+Print Assumptions C09_disk_total_listing_only.
+
+(* the sysfs-only path: per device a function of that device's stat file alone *)
+Theorem C09_sys_perdisk_ignores_listing : forall sb1 sb2 l,
+  wf_syss l = true ->
+  disk_io_counters true sb1 (SysBlock (map (fun e => (y_name e, k_sys_stat e)) l))
+  = disk_io_counters true sb2 (SysBlock (map (fun e => (y_name e, k_sys_stat e)) l)).
+Proof. exact sys_perdisk_ignores_listing. Qed.
+Print Assumptions C09_sys_perdisk_ignores_listing.
+
 (* known finding: the kernel documentation's own 2.4 example line is read one column off
    (#blocks as read_count, ...) *)
 Theorem C09_disk_l24_refuted :
